@@ -89,3 +89,9 @@ func (cs *ChainService) VerifReexecute(block *types.Block) (root []byte, receipt
 	}
 	return ex.BlockState.GetRoot(), receiptsBin, ex.BlockState.Receipts().MerkleRoot(), nil
 }
+
+// VerifRawReceipts reads the stored receipts of a block without the RPC-side decoration
+// (memory info, address un-padding) that ChainService.getReceipts applies.
+func (cs *ChainService) VerifRawReceipts(blockHash []byte, blockNo types.BlockNo) (*types.Receipts, error) {
+	return cs.cdb.getReceipts(blockHash, blockNo, cs.cfg.Hardfork)
+}
